@@ -44,6 +44,7 @@ var auditedServerRemovals = map[string]string{
 	"convertFromSafetensors": "temp dir (deferred)",
 	"createLink":             "stale link inside the temp dir",
 	"blobDownload.run":       "part files after completion",
+	"blobDownload.Prepare":   "part records (-partial-N) when one of them cannot be read: the download starts over (fix 6e3d16d25)",
 }
 
 func serverFuncGraphs(c *Ctx, name string) []*core.Graph {
